@@ -56,6 +56,18 @@ func (v *VTimer) Stop() bool {
 	return true
 }
 
+// Reset re-arms an AfterFunc timer to fire d from now; reports whether it had still been pending.
+func (v *VTimer) Reset(d int64) bool {
+	if v.tm == nil || cur != v.s || v.s.cur.abort {
+		return false
+	}
+	Point(v.o, true, "Timer.Reset", nil)
+	active := !(v.tm.fired || v.tm.stopped)
+	v.tm.stopped = true
+	v.tm = v.s.addTimer(d, "AfterFunc", v.tm.f)
+	return active
+}
+
 // AdvanceTo lets a harness thread wait until virtual time t (ns since start).
 func SleepUntilNs(at int64) {
 	s := cur
